@@ -55,3 +55,50 @@ def small_ctc_sets(names, depth=1, max_pairs=True):
     """Constraint lists used by the E2 batches: every single tree of the given depth over `names`."""
     trees = R.logical_trees(names, depth)
     return [[t] for t in trees if not isinstance(t, str)]
+
+
+def pair_batch(modname, funcname, max_n, lo, hi, seed, label):
+    """History of two models in one process, each checked against its definition: for ordered pairs
+    (A, B) of shapes run func(A), func(B), func(A) - a process-wide cache keyed by feature name (all
+    models use the names F0..Fn in preorder) shows up as a wrong second or third result."""
+    import importlib
+    import random
+    rnd = random.Random(seed)
+    mod = importlib.import_module(modname)
+    shapes = R.shapes(max_n)
+    pairs = [(a, b) for a in shapes for b in shapes if a != b][lo:hi]
+    res = {'instances': 0, 'nontrivial': 0, 'violations': [], 'native_runs': 0}
+    for a, b in pairs:
+        ca = rnd.choice(list(R.all_cards(a))) if R.relations_of(a) else []
+        cb = rnd.choice(list(R.all_cards(b))) if R.relations_of(b) else []
+        res['instances'] += 1
+        res['native_runs'] += 3
+        res['nontrivial'] += 1
+        bad = replay_pair(modname, funcname, a, ca, b, cb)
+        if bad:
+            res['violations'].append({'label': label, 'detail': bad[0], 'replay_func': 'replay_pair',
+                                      'replay_args': [modname, funcname, a, ca, b, cb]})
+            if len(res['violations']) >= 4:
+                return res
+        res['sample'] = {'first': R.shape_str(a), 'second': R.shape_str(b), 'cards': [ca, cb]}
+    return res
+
+
+def replay_pair(modname, funcname, a, ca, b, cb):
+    import importlib
+    mod = importlib.import_module(modname)
+    fn = getattr(mod, funcname)
+    a, b = totuple(a), totuple(b)
+    ca, cb = [tuple(c) for c in ca], [tuple(c) for c in cb]
+    out = []
+    for step, (sh, cd) in enumerate([(a, ca), (b, cb), (a, ca)]):
+        try:
+            ok = fn(sh, cd)
+        except Exception as exc:
+            ok = False
+            out.append('step %d raises %s: %s' % (step, type(exc).__name__, exc))
+        if not ok:
+            out.append('analysing %s %r, then %s %r, then the first again: step %d (%s) disagrees with its definition'
+                       % (R.shape_str(a), ca, R.shape_str(b), cb, step, funcname))
+            break
+    return out
